@@ -1,6 +1,7 @@
 import UrcuVerif.Src.IR
 import UrcuVerif.Gen.Src
 import UrcuVerif.Src.StackLocal
+import UrcuVerif.Src.StackExec
 /-!
 # Generated source IR of the stack primitives ⊑ thread-local projection of L2 (`Wfs`), proved for every oracle
 
@@ -23,16 +24,6 @@ L2 label in `pop` and in `empty`):
   a stutter step, the pause between two polls is not modelled.
 -/
 namespace UrcuVerif.Src
-
-/-- symbolic execution of the generated terms -/
-syntax "sexec" (" [" Lean.Parser.Tactic.simpLemma,* "]")? : tactic
-macro_rules
-  | `(tactic| sexec) =>
-    `(tactic| simp [block, exec, eval, evalArgs, execPrim, asLoc, Env.setVar, Env.setPriv, setDst, bind, Except.bind,
-        Val.truthy, bindParams, evalBin, evalUn, boolV, *])
-  | `(tactic| sexec [$ls,*]) =>
-    `(tactic| simp [block, exec, eval, evalArgs, execPrim, asLoc, Env.setVar, Env.setPriv, setDst, bind, Except.bind,
-        Val.truthy, bindParams, evalBin, evalUn, boolV, *, $ls,*])
 
 namespace WfsR
 open UrcuVerif UrcuVerif.Src WfsL
@@ -150,7 +141,149 @@ theorem push_refines (fuel : Nat) (env : Env) (inp : List Val) (s n : Nat) (cfg 
     have he := dec_end ho
     by_cases hc : cfg = 0 <;> by_cases hoe : o = Wfs.END <;>
       sexec [Gen.Src.«_cds_wfs_push», Gen.Src.«___cds_wfs_end»] <;>
-      simp [absEv, lrun, lstep, Done, headLoc, dec_node hnode, ho, hnode, hpc, retV, he, hoe]
+      simp [absEv, lrun, lstep, Done, headLoc, dec_node hnode, ho, hnode, hpc, retV, hoe]
 
 end WfsR
+-- ==========================================================================================================
+namespace LfsR
+open UrcuVerif UrcuVerif.Src LfsL
+
+/-- NULL = `Val.int 0` ↦ 0, node pointer `Val.ptr (Loc.obj k)` ↦ `k` (`k ≠ 0`) -/
+def dec : Val → Option Nat
+  | .int i => if i = 0 then some 0 else none
+  | .ptr (.obj k) => if k ≠ 0 then some k else none
+  | _ => none
+
+def enc (k : Nat) : Val := if k = 0 then .int 0 else .ptr (.obj k)
+
+@[simp] theorem dec_enc (k : Nat) : dec (enc k) = some k := by
+  unfold enc; split
+  · subst_vars; rfl
+  · simp [dec, *]
+
+theorem enc_dec {v : Val} {k : Nat} (h : dec v = some k) : v = enc k := by
+  unfold dec at h; split at h
+  · split at h <;> cases h; subst_vars; rfl
+  · split at h <;> cases h
+    rename_i hk; simp [enc, hk]
+  · cases h
+
+@[simp] theorem enc_inj (a b : Nat) : enc a = enc b ↔ a = b := by
+  constructor
+  · intro h; have := congrArg dec h; simpa using this
+  · rintro rfl; rfl
+
+@[simp] theorem enc_eq_null (a : Nat) : enc a = .int 0 ↔ a = 0 := by
+  rw [show (Val.int 0) = enc 0 from rfl, enc_inj]
+
+theorem enc_node {k : Nat} (h : k ≠ 0) : enc k = .ptr (.obj k) := by simp [enc, h]
+
+inductive Op | push | pop | popAll | empty
+  deriving DecidableEq, Repr
+
+def headLoc (s : Nat) : Loc := .field (.obj s) "head"
+def nextLoc (k : Nat) : Loc := .field (.obj k) "next"
+
+/-- Abstraction of events.  In `push` the `cas` stands for TWO L2 labels: the plain store `node->next = head` that
+precedes it is an access to the still thread-private node – no shared-memory event; it is visible in the private
+view (`push_refines` states `priv (node->next)` at return) – and L2's `pushSt` is that store. -/
+def absEv (op : Op) (s : Nat) : Event → List LLabel
+  | .fence _ => []
+  | .xchg l new old mo =>
+    if op = .popAll ∧ l = headLoc s ∧ 5 ≤ mo ∧ new = .int 0 then
+      match dec old with
+      | some o => [.popAll o]
+      | none => [.bad]
+    else [.bad]
+  | .ld (.field (.obj k) f) v mo =>
+    if f = "head" ∧ k = s then
+      match op, dec v with
+      | .pop, some h => if 1 ≤ mo then [.popLd h] else [.bad]
+      | .empty, some h => [.empty h]
+      | _, _ => [.bad]
+    else if op = .pop ∧ f = "next" ∧ k ≠ 0 then
+      match dec v with
+      | some x => [.popLdN k x]
+      | none => [.bad]
+    else [.bad]
+  | .cas l e n old mos mof =>
+    if l = headLoc s ∧ 5 ≤ mos ∧ 5 ≤ mof then
+      match op, dec e, dec n, dec old with
+      | .push, some h, some nd, some cur => if nd ≠ 0 then [.pushSt nd h, .pushCas nd h cur] else [.bad]
+      | .pop, some h, some nx, some cur => [.popCas h nx cur]
+      | _, _, _, _ => [.bad]
+    else [.bad]
+  | _ => [.bad]
+
+def lr (op : Op) (s : Nat) (ls : LState) (evs : List Event) : Option LState := lrun ls (evs.flatMap (absEv op s))
+
+theorem lr_nil (op s ls) : lr op s ls [] = some ls := rfl
+theorem lr_append (op s ls a b) : lr op s ls (a ++ b) = (lr op s ls a).bind (fun m => lr op s m b) := by
+  simp [lr, List.flatMap_append, lrun_append]
+
+def retV : Lfs.Ret → Val
+  | .void => .int 0
+  | .flag b => .int (if b then 1 else 0)
+  | .node n => .ptr (.obj n)
+  | .null => .int 0
+  | .head h => .ptr (.obj h)
+
+def Done (out : Out) (ls' : LState) : Prop :=
+  out.ctl = .blocked ∨ out.ctl = .fuel ∨ (out.ctl = .ret (some (retV ls'.ret)) ∧ ls'.pc = .idle)
+
+-- ----------------------------------------------------------------------------------------------------------
+-- _cds_lfs_push
+-- ----------------------------------------------------------------------------------------------------------
+/-- loop invariant of the CAS retry loop: `head` holds the current guess `h`, L2 is at `pushSt n h` -/
+def PushI (s n : Nat) (cfg : Int) (e : Env) (i : List Val) (l : LState) : Prop :=
+  e.vars "s" = some (.ptr (.obj s)) ∧ e.vars "node" = some (.ptr (.obj n)) ∧
+  e.vars "new_head" = some (.ptr (.obj n)) ∧ e.priv (.glob "CONFIG_RCU_EMIT_LEGACY_MB") = some (.int cfg) ∧
+  (∀ v ∈ i, (dec v).isSome) ∧ ∃ h, e.vars "head" = some (enc h) ∧ l.pc = .pushSt n h
+
+/-- terminal outcomes of the loop body: preempted, or `break` after the successful CAS -/
+def PushR (n : Nat) (c : Ctl) (e : Env) (_ : List Val) (l : LState) : Prop :=
+  c = .blocked ∨ (c = .brk ∧ ∃ h, e.vars "head" = some (enc h) ∧ l = ⟨.idle, .flag (h != 0)⟩ ∧
+    e.priv (nextLoc n) = some (enc h))
+
+theorem push_refines (fuel : Nat) (env : Env) (inp : List Val) (s n : Nat) (cfg : Int) (ls : LState)
+    (hs : env.vars "u_s" = some (.ptr (.obj s))) (hn : env.vars "node" = some (.ptr (.obj n)))
+    (hcfg : env.priv (.glob "CONFIG_RCU_EMIT_LEGACY_MB") = some (.int cfg))
+    (hnode : n ≠ 0) (hpc : ls.pc = .pushSt n 0)
+    (hinp : ∀ v ∈ inp, (dec v).isSome) :
+    ∃ out, exec fuel Gen.Src.«_cds_lfs_push» env inp = .ok out ∧
+      ∃ ls', lr .push s ls out.events = some ls' ∧ Done out ls' ∧
+        (∀ r, out.ctl = .ret r → ∃ h, out.env.priv (nextLoc n) = some (enc h) ∧ ls'.ret = .flag (h != 0)) := by
+  sexec [Gen.Src.«_cds_lfs_push», Gen.Src.«___cds_lfs_empty_head»]
+  generalize hE : iterate _ _ _ _ _ = r
+  obtain ⟨o, rfl, evs, ls', hev, hl, hfin⟩ : ∃ o, r = .ok o ∧ ∃ evs ls', o.events = [] ++ evs ∧
+      lr .push s ls evs = some ls' ∧ (o.ctl = .fuel ∨ ∃ c, c.goesOn = false ∧
+        PushR n c o.env o.inp ls' ∧ o.ctl = c.afterLoop) := by
+    rw [← hE]
+    refine iterate_inv (lr .push s) (lr_nil _ _) (lr_append _ _) _ (PushI s n cfg) (PushR n) ?_ fuel _ _ ls [] ?_
+    · rintro e i l ⟨h1, h2, h3, h4, h5, h, h6, h7⟩
+      cases i with
+      | nil => by_cases hc : cfg = 0 <;> sexec <;> simp [lr, lrun, absEv, Ctl.goesOn, PushR]
+      | cons v rest =>
+        obtain ⟨cur, hcur⟩ := Option.isSome_iff_exists.mp (h5 v (by simp))
+        have hv := enc_dec hcur; subst hv
+        have h5' : ∀ v ∈ rest, (dec v).isSome := fun v hv => h5 v (by simp [hv])
+        have hdn : dec (.ptr (.obj n)) = some n := by simp [dec, hnode]
+        by_cases hch : h = cur
+        · subst hch
+          by_cases hc : cfg = 0 <;> sexec <;>
+            simp [lr, lrun, lstep, absEv, headLoc, nextLoc, Ctl.goesOn, PushR, hdn, hnode, h7]
+        · have hch' : ¬ cur = h := fun e => hch e.symm
+          by_cases hc : cfg = 0 <;> sexec <;>
+            simp [lr, lrun, lstep, absEv, headLoc, Ctl.goesOn, PushI, hdn, hnode, h7, hch', h1, h2, h3, h4, hc] <;>
+            exact h5'
+    · sexec [PushI]; exact ⟨hinp, rfl⟩
+  simp only [List.nil_append] at hev
+  rcases hfin with hf | ⟨c, -, hR | ⟨rfl, h, hh, rfl, hp⟩, hc⟩
+  · sexec; simp [hev, hl, Done]
+  · subst hR; simp only [Ctl.afterLoop] at hc; sexec; simp [hev, hl, Done]
+  · simp only [Ctl.afterLoop] at hc
+    by_cases h0 : h = 0 <;> sexec <;> simp [hev, hl, Done, retV, h0, hp]
+
+end LfsR
+
 end UrcuVerif.Src
